@@ -280,8 +280,8 @@ func (u *Upstream) run(isResume bool) error {
 	defer cancel()
 	eg, ctx := errgroup.WithContext(ctx)
 	eg.Go(func() error {
-		defer u.eventDispatcher.cond.Broadcast()
-		defer u.state.cond.Broadcast()
+		defer u.eventDispatcher.wake()
+		defer u.state.wake()
 		<-ctx.Done()
 		return nil
 	})
